@@ -1,5 +1,5 @@
 (** C12 — lemmas. *)
-From Coq Require Import List Arith ZArith NArith Bool Lia.
+From Coq Require Import List Arith ZArith NArith Bool Lia FMapPositive.
 From SV Require Import C12.Model.
 Import ListNotations.
 Open Scope N_scope.
@@ -93,6 +93,20 @@ Proof.
     + apply IH.
 Qed.
 
+Lemma maglev_probe_f_in mg addr_of cands start : forall fuel i h,
+  maglev_probe_f mg addr_of cands start i fuel = Some h -> In h cands.
+Proof.
+  induction fuel as [|f IH]; intros i h; cbn [maglev_probe_f].
+  - intros E; inversion E.
+  - destruct (PositiveMap.find (pkey ((start + i) mod mf_size mg)) (mf_table mg)) as [idx|].
+    + destruct (nth_error (mf_addrs mg) idx) as [a|].
+      * destruct (find (fun h0 => addr_of h0 =? a) cands) as [h0|] eqn:F.
+        -- intros E; inversion E; subst. apply find_some in F. tauto.
+        -- apply IH.
+      * apply IH.
+    + apply IH.
+Qed.
+
 Lemma rr_picks cur cands cur' r :
   rr_next cur cands = (cur', r) -> incl (picks (POne r)) cands.
 Proof.
@@ -103,7 +117,7 @@ Qed.
 Lemma lb_next_in s p key cands :
   incl (picks (snd (lb_next s p key cands))) cands.
 Proof.
-  destruct p as [cur| |m|m|cur|mg cur|built addrs cur]; cbn [lb_next].
+  destruct p as [cur| |m|m|cur|mg cur|mgf cur]; cbn [lb_next].
   - destruct (rr_next cur cands) as [cur' r] eqn:E. cbn [snd]. eapply rr_picks; eauto.
   - cbn [snd]. destruct cands; cbn; auto using incl_refl.
   - cbn [snd]. destruct (least _ cands) as [h|] eqn:E; cbn; intros x Hx; cbn in Hx; [|tauto].
@@ -124,7 +138,12 @@ Proof.
     + destruct (rr_next cur cands) as [cur' r] eqn:E. cbn [snd]. eapply rr_picks; eauto.
   - destruct key as [k|].
     + destruct cands as [|c0 ct] eqn:EC; [cbn; intros x []|]. rewrite <- EC.
-      destruct built; cbn; auto using incl_refl.
+      match goal with |- context [if negb (mf_built ?M) then _ else _] => set (mg1 := M) end.
+      destruct (negb (mf_built mg1)); [cbn; intros x []|].
+      destruct (maglev_probe_f mg1 _ cands _ 0 _) as [h|] eqn:EP; cbn [snd].
+      * intros x Hx. cbn in Hx. destruct Hx as [<-|[]]. eapply maglev_probe_f_in; eauto.
+      * destruct (nth_error cands _) as [h|] eqn:EN; cbn; intros x Hx; cbn in Hx; [|tauto].
+        destruct Hx as [<-|[]]. eapply nth_error_In; eauto.
     + destruct (rr_next cur cands) as [cur' r] eqn:E. cbn [snd]. eapply rr_picks; eauto.
 Qed.
 
@@ -421,7 +440,7 @@ Lemma affinity_stable_lemma s s' p k cands :
   lb_next s p (Some k) cands = lb_next s' p (Some k) cands /\
   fst (lb_next s p (Some k) cands) = p.
 Proof.
-  intros Ha [Hs Hh]. destruct p as [cur| |m|m|cur|mg cur|built addrs cur]; cbn in Ha; try tauto.
+  intros Ha [Hs Hh]. destruct p as [cur| |m|m|cur|mg cur|mgf cur]; cbn in Ha; try tauto.
   - cbn [lb_next fst]. split; [|reflexivity]. f_equal. f_equal.
     destruct cands as [|c0 ct]; [reflexivity|]. cbn [hrw]. f_equal.
     apply hrw_go_ext. intros h Hin. unfold bk in Hh. destruct (Hh h Hin) as [-> ->]. rewrite Hs. reflexivity.
